@@ -43,6 +43,7 @@ def run_generated(kind, n, m, mode, be, uuid_seed, row_seed, sample_bits=11):
     core = cirbo_core()
     from cirbo.synthesis.generation import arithmetics as ar
 
+    again = uuid_seed % 3 == 0  # generators: ask twice, the first result changed by its owner in between
     with UuidStream(uuid_seed):
         if kind == 'mul' and mode == 'KARATSUBA_PLAIN':
             # add_mul_karatsuba is not reachable through generate_mul: call it on fresh inputs
@@ -50,10 +51,10 @@ def run_generated(kind, n, m, mode, be, uuid_seed, row_seed, sample_bits=11):
             c.set_outputs(ar.add_mul_karatsuba(c, c.inputs[:n], c.inputs[n:], big_endian=be))
             nin = n + m
         elif kind == 'mul':
-            c = ar.generate_mul(n, m, type=ar.MulMode[mode], big_endian=be)
+            c = arith.fresh(lambda: ar.generate_mul(n, m, type=ar.MulMode[mode], big_endian=be), again)
             nin = n + m
         else:
-            c = ar.generate_square(n, type=ar.SquareMode[mode], big_endian=be)
+            c = arith.fresh(lambda: ar.generate_square(n, type=ar.SquareMode[mode], big_endian=be), again)
             nin = n
     res = refsem.from_circuit(c)
     what = f'generate_{kind}({n}{"" if m is None else "," + str(m)}, {mode}, big_endian={be})'
@@ -252,7 +253,7 @@ SPEC = {
              'reference operand vectors == decoded result in the requested endianness, documented result length, host '
              'discipline. Non-trivial: both widths >= 2.'),
     'assumptions': ['reference tables from vlib/refsem.py; wide circuits only on sampled rows'],
-    'subs': [Sub('host', host_cases, arith.with_label_collisions(check_host), {'quick': 1200, 'thorough': 75000})],
+    'subs': [Sub('host', host_cases, arith.with_refused_prelude(arith.with_label_collisions(check_host)), {'quick': 1200, 'thorough': 75000})],
     'sharded': {'width_sweep': sweep},
     'replay': {'width_sweep': replay_sweep},
     'required_classes': {'host': ['mul:' + k for k in ADD_MUL] + ['sq:DEFAULT', 'sq:POW2_M1', 'internal_operands', 'be', 'le',
